@@ -436,6 +436,12 @@ class AttributeCollection(MutableMapping[int, Attribute]):
             return b''
 
         data = data[offset:]
+        if length > len(data):
+            # RFC 7606 section 4: an attribute whose length runs past the end of the attribute block is
+            # malformed (treat-as-withdraw).  Slicing quietly shortened it to what was left, and a
+            # COMMUNITY declaring 8 octets with 4 present was accepted as another, valid, attribute.
+            self.add(TreatAsWithdraw(aid))
+            return b''
         left = data[length:]
         attribute = data[:length]
 
